@@ -1,4 +1,5 @@
 import Cx.Model.Swar
+import Std.Tactic.BVDecide
 /-
   Cx.Proofs.Swar — lemmas behind C18/C16: the SWAR zero-byte detector and the chunked loops equal their
   one-line scalar definitions.  The bit-vector facts about `hasZero` are discharged by `bv_decide`
@@ -13,31 +14,656 @@ def BytesOK (h : Bytes) : Prop := ∀ i, h.at i < 256
 /-- byte `k` (little-endian) of a 64-bit word -/
 def byteOf (x : BitVec 64) (k : Nat) : BitVec 8 := (x >>> (8 * k)).truncate 8
 
-theorem hasZero_eq_zero_iff (x : BitVec 64) : hasZero x = 0#64 ↔ ∀ k, k < 8 → byteOf x k ≠ 0#8 := by
-  sorry
+/-! ### the scalar scan `naiveFrom` -/
 
-/-- the lowest set bit of the detector marks the first zero byte -/
-theorem tz_hasZero (x : BitVec 64) (k : Nat) (hk : k < 8) (hz : byteOf x k = 0#8)
-    (hfirst : ∀ j, j < k → byteOf x j ≠ 0#8) : tz (hasZero x) / 8 = k := by
-  sorry
+theorem naiveFrom_spec (h : Bytes) (p : Nat → Bool) : ∀ fuel i, h.size < fuel + i →
+    (naiveFrom h p fuel i = -1 ∧ ∀ j, i ≤ j → j < h.size → p (h.at j) = false) ∨
+    (∃ k : Nat, naiveFrom h p fuel i = (k : Int) ∧ i ≤ k ∧ k < h.size ∧ p (h.at k) = true ∧
+      ∀ j, i ≤ j → j < k → p (h.at j) = false) := by
+  intro fuel
+  induction fuel with
+  | zero => intro i hf; left; exact ⟨rfl, fun j h1 h2 => by omega⟩
+  | succ fuel ih =>
+    intro i hf
+    unfold naiveFrom
+    by_cases hi : i ≥ h.size
+    · left; rw [if_pos hi]; exact ⟨rfl, fun j h1 h2 => by omega⟩
+    · rw [if_neg hi]
+      cases hp : p (h.at i) with
+      | true =>
+        right
+        exact ⟨i, by simp, Nat.le_refl _, by omega, hp, fun j h1 h2 => by omega⟩
+      | false =>
+        have hstep : (if false = true then (i : Int) else naiveFrom h p fuel (i+1)) = naiveFrom h p fuel (i+1) := by simp
+        rw [hstep]
+        rcases ih (i+1) (by omega) with ⟨h1, h2⟩ | ⟨k, h1, h2, h3, h4, h5⟩
+        · left
+          refine ⟨h1, fun j hj1 hj2 => ?_⟩
+          by_cases hji : j = i
+          · subst hji; exact hp
+          · exact h2 j (by omega) hj2
+        · right
+          refine ⟨k, h1, by omega, h3, h4, fun j hj1 hj2 => ?_⟩
+          by_cases hji : j = i
+          · subst hji; exact hp
+          · exact h5 j (by omega) hj2
 
-theorem memchrN_eq_naive (h : Bytes) (needles : List Nat) (hb : BytesOK h) (hn : ∀ n ∈ needles, n < 256)
-    (hlen : 1 ≤ needles.length ∧ needles.length ≤ 3) :
-    memchrNGeneric h needles = naiveIndex h (fun b => needles.contains b) := by
-  sorry
+theorem naiveFrom_eq_of_first (h : Bytes) (p : Nat → Bool) (fuel i k : Nat) (hf : h.size < fuel + i)
+    (hik : i ≤ k) (hk : k < h.size) (hpk : p (h.at k) = true)
+    (hlt : ∀ j, i ≤ j → j < k → p (h.at j) = false) : naiveFrom h p fuel i = (k : Int) := by
+  rcases naiveFrom_spec h p fuel i hf with ⟨_, h2⟩ | ⟨k', h1, h2, h3, h4, h5⟩
+  · have := h2 k hik hk; rw [hpk] at this; cases this
+  · by_cases hkk : k' = k
+    · subst hkk; exact h1
+    · by_cases hlt' : k' < k
+      · have := hlt k' h2 hlt'; rw [h4] at this; cases this
+      · have := h5 k hik (by omega); rw [hpk] at this; cases this
 
-theorem isASCII_eq_naive (h : Bytes) (hb : BytesOK h) :
-    isASCIIGeneric h = decide (naiveIndex h (fun b => b ≥ 128) = -1) := by
-  sorry
+theorem naiveFrom_eq_neg_one (h : Bytes) (p : Nat → Bool) (fuel i : Nat) (hf : h.size < fuel + i)
+    (hall : ∀ j, i ≤ j → j < h.size → p (h.at j) = false) : naiveFrom h p fuel i = -1 := by
+  rcases naiveFrom_spec h p fuel i hf with ⟨h1, _⟩ | ⟨k', _, h2, h3, h4, _⟩
+  · exact h1
+  · have := hall k' h2 h3; rw [h4] at this; cases this
 
-theorem memmemSingle_eq_naive (h n : Bytes) (rareIdx : Nat) (hr : rareIdx < n.size) :
-    memmemSingle h n rareIdx = naiveMemmem h n := by
-  sorry
+/-- skipping `m` positions none of which satisfies `p` -/
+theorem naiveFrom_skip (h : Bytes) (p : Nat → Bool) (i m : Nat)
+    (hlt : ∀ j, i ≤ j → j < i + m → p (h.at j) = false) :
+    naiveFrom h p (h.size + 1) i = naiveFrom h p (h.size + 1) (i + m) := by
+  rcases naiveFrom_spec h p (h.size + 1) (i + m) (by omega) with ⟨h1, h2⟩ | ⟨k, h1, h2, h3, h4, h5⟩
+  · rw [h1]
+    apply naiveFrom_eq_neg_one _ _ _ _ (by omega)
+    intro j hj1 hj2
+    by_cases hjm : j < i + m
+    · exact hlt j hj1 hjm
+    · exact h2 j (by omega) hj2
+  · rw [h1]
+    apply naiveFrom_eq_of_first _ _ _ _ _ (by omega) (by omega) h3 h4
+    intro j hj1 hj2
+    by_cases hjm : j < i + m
+    · exact hlt j hj1 hjm
+    · exact h5 j (by omega) hj2
 
 /-- the scalar definition is what it says: the result is the least index satisfying `p` -/
 theorem naiveIndex_spec (h : Bytes) (p : Nat → Bool) :
     (naiveIndex h p = -1 ∧ ∀ i, i < h.size → p (h.at i) = false) ∨
     (∃ i : Nat, naiveIndex h p = (i : Int) ∧ i < h.size ∧ p (h.at i) = true ∧ ∀ j, j < i → p (h.at j) = false) := by
-  sorry
+  unfold naiveIndex
+  rcases naiveFrom_spec h p (h.size + 1) 0 (by omega) with ⟨h1, h2⟩ | ⟨k, h1, _, h3, h4, h5⟩
+  · left; exact ⟨h1, fun i hi => h2 i (Nat.zero_le _) hi⟩
+  · right; exact ⟨k, h1, h3, h4, fun j hj => h5 j (Nat.zero_le _) hj⟩
+
+/-! ### memmemSingle -/
+
+theorem matchesAt_false_of_gt (h n : Bytes) (j : Nat) (hj : j + n.size > h.size) : matchesAt h n j = false := by
+  unfold matchesAt
+  have : decide (j + n.size ≤ h.size) = false := by simp; omega
+  rw [this]; rfl
+
+theorem matchesAt_rare (h n : Bytes) (i r : Nat) (hr : r < n.size) (hm : matchesAt h n i = true) :
+    h.at (i + r) = n.at r ∧ i + n.size ≤ h.size := by
+  unfold matchesAt at hm
+  simp only [Bool.and_eq_true, decide_eq_true_eq, List.all_eq_true, List.mem_range] at hm
+  exact ⟨hm.2 r hr, hm.1⟩
+
+theorem naiveMemmemFrom_spec (h n : Bytes) : ∀ fuel i, h.size < fuel + i →
+    (naiveMemmemFrom h n fuel i = -1 ∧ ∀ j, i ≤ j → matchesAt h n j = false) ∨
+    (∃ k : Nat, naiveMemmemFrom h n fuel i = (k : Int) ∧ i ≤ k ∧ matchesAt h n k = true ∧
+      ∀ j, i ≤ j → j < k → matchesAt h n j = false) := by
+  intro fuel
+  induction fuel with
+  | zero =>
+    intro i hf; left
+    exact ⟨rfl, fun j h1 => matchesAt_false_of_gt h n j (by omega)⟩
+  | succ fuel ih =>
+    intro i hf
+    unfold naiveMemmemFrom
+    by_cases hi : i + n.size > h.size
+    · left; rw [if_pos hi]; exact ⟨rfl, fun j h1 => matchesAt_false_of_gt h n j (by omega)⟩
+    · rw [if_neg hi]
+      cases hp : matchesAt h n i with
+      | true =>
+        right
+        exact ⟨i, by simp, Nat.le_refl _, hp, fun j h1 h2 => by omega⟩
+      | false =>
+        have hstep : (if false = true then (i : Int) else naiveMemmemFrom h n fuel (i+1))
+            = naiveMemmemFrom h n fuel (i+1) := by simp
+        rw [hstep]
+        rcases ih (i+1) (by omega) with ⟨h1, h2⟩ | ⟨k, h1, h2, h4, h5⟩
+        · left
+          refine ⟨h1, fun j hj1 => ?_⟩
+          by_cases hji : j = i
+          · subst hji; exact hp
+          · exact h2 j (by omega)
+        · right
+          refine ⟨k, h1, by omega, h4, fun j hj1 hj2 => ?_⟩
+          by_cases hji : j = i
+          · subst hji; exact hp
+          · exact h5 j (by omega) hj2
+
+theorem naiveMemmem_eq_of_first (h n : Bytes) (k : Nat) (hk : matchesAt h n k = true)
+    (hlt : ∀ j, j < k → matchesAt h n j = false) : naiveMemmem h n = (k : Int) := by
+  unfold naiveMemmem
+  rcases naiveMemmemFrom_spec h n (h.size + 1) 0 (by omega) with ⟨_, h2⟩ | ⟨k', h1, _, h4, h5⟩
+  · have := h2 k (Nat.zero_le _); rw [hk] at this; cases this
+  · by_cases hkk : k' = k
+    · subst hkk; exact h1
+    · by_cases hlt' : k' < k
+      · have := hlt k' hlt'; rw [h4] at this; cases this
+      · have := h5 k (Nat.zero_le _) (by omega); rw [hk] at this; cases this
+
+theorem naiveMemmem_eq_neg_one (h n : Bytes) (hall : ∀ j, matchesAt h n j = false) : naiveMemmem h n = -1 := by
+  unfold naiveMemmem
+  rcases naiveMemmemFrom_spec h n (h.size + 1) 0 (by omega) with ⟨h1, _⟩ | ⟨k', _, _, h4, _⟩
+  · exact h1
+  · have := hall k'; rw [h4] at this; cases this
+
+theorem memmemSingleLoop_eq (h n : Bytes) (r : Nat) (hr : r < n.size) : ∀ fuel s, h.size < fuel + s →
+    (∀ j, j + r < s → matchesAt h n j = false) →
+    memmemSingleLoop h n r fuel s = naiveMemmem h n := by
+  intro fuel
+  induction fuel with
+  | zero =>
+    intro s hf hinv
+    rw [naiveMemmem_eq_neg_one]; rfl
+    intro j
+    cases hm : matchesAt h n j with
+    | false => rfl
+    | true =>
+      have := matchesAt_rare h n j r hr hm
+      rw [hinv j (by omega)] at hm; cases hm
+  | succ fuel ih =>
+    intro s hf hinv
+    unfold memmemSingleLoop
+    rcases naiveFrom_spec h (fun b => b = n.at r) (h.size + 1) s (by omega) with
+      ⟨h1, h2⟩ | ⟨cand, h1, h2, h3, h4, h5⟩
+    · rw [h1]
+      show (-1 : Int) = _
+      rw [naiveMemmem_eq_neg_one]
+      intro j
+      cases hm : matchesAt h n j with
+      | false => rfl
+      | true =>
+        have hb := matchesAt_rare h n j r hr hm
+        by_cases hjs : j + r < s
+        · rw [hinv j hjs] at hm; cases hm
+        · have := h2 (j + r) (by omega) (by omega)
+          simp [hb.1] at this
+    · rw [h1]
+      show (if cand < r ∨ cand - r + n.size > h.size then
+              if cand + 1 ≥ h.size then -1 else memmemSingleLoop h n r fuel (cand + 1)
+            else if matchesAt h n (cand - r) then ((cand - r : Nat) : Int)
+            else if cand + 1 ≥ h.size then -1 else memmemSingleLoop h n r fuel (cand + 1)) = _
+      -- no occurrence whose rare byte lies before the candidate
+      have hbefore : ∀ j, j + r < cand → matchesAt h n j = false := by
+        intro j hj
+        by_cases hjs : j + r < s
+        · exact hinv j hjs
+        · cases hm : matchesAt h n j with
+          | false => rfl
+          | true =>
+            have hb := matchesAt_rare h n j r hr hm
+            have := h5 (j + r) (by omega) hj
+            simp [hb.1] at this
+      -- if the occurrence aligned with the candidate is excluded, the invariant extends past the candidate
+      have hnext : matchesAt h n (cand - r) = false ∨ cand < r ∨ cand - r + n.size > h.size →
+          ∀ j, j + r < cand + 1 → matchesAt h n j = false := by
+        intro hex j hj
+        by_cases hjc : j + r < cand
+        · exact hbefore j hjc
+        · have hje : j = cand - r := by omega
+          rcases hex with hex | hex
+          · rw [hje]; exact hex
+          · exact matchesAt_false_of_gt h n j (by omega)
+      have hlast : (matchesAt h n (cand - r) = false ∨ cand < r ∨ cand - r + n.size > h.size) →
+          cand + 1 ≥ h.size → ∀ j, matchesAt h n j = false := by
+        intro hex hc j
+        by_cases hjc : j + r < cand + 1
+        · exact hnext hex j hjc
+        · exact matchesAt_false_of_gt h n j (by omega)
+      by_cases hc1 : cand < r ∨ cand - r + n.size > h.size
+      · rw [if_pos hc1]
+        by_cases hc2 : cand + 1 ≥ h.size
+        · rw [if_pos hc2, naiveMemmem_eq_neg_one h n (hlast (Or.inr hc1) hc2)]
+        · rw [if_neg hc2]
+          exact ih (cand + 1) (by omega) (hnext (Or.inr hc1))
+      · rw [if_neg hc1]
+        cases hm : matchesAt h n (cand - r) with
+        | true =>
+          simp only [if_true]
+          rw [naiveMemmem_eq_of_first h n (cand - r) hm]
+          intro j hj
+          exact hbefore j (by omega)
+        | false =>
+          have hstep : ∀ (a b : Int), (if false = true then a else b) = b := by intros; simp
+          rw [hstep]
+          by_cases hc2 : cand + 1 ≥ h.size
+          · rw [if_pos hc2, naiveMemmem_eq_neg_one h n (hlast (Or.inl hm) hc2)]
+          · rw [if_neg hc2]
+            exact ih (cand + 1) (by omega) (hnext (Or.inl hm))
+
+theorem memmemSingle_eq_naive (h n : Bytes) (rareIdx : Nat) (hr : rareIdx < n.size) :
+    memmemSingle h n rareIdx = naiveMemmem h n := by
+  unfold memmemSingle
+  exact memmemSingleLoop_eq h n rareIdx hr (h.size + 1) 0 (by omega) (fun j hj => by omega)
+
+/-! ### bit-vector facts (bv_decide) -/
+
+theorem hi8_bit : ∀ i, i < 64 → hi8.getLsbD i = decide (i % 8 = 7) := by decide
+
+theorem lt8_cases {k : Nat} (hk : k < 8) : k = 0 ∨ k = 1 ∨ k = 2 ∨ k = 3 ∨ k = 4 ∨ k = 5 ∨ k = 6 ∨ k = 7 := by
+  omega
+
+theorem hasZero_zero_iff8 (x : BitVec 64) : hasZero x = 0#64 ↔
+    (byteOf x 0 ≠ 0#8 ∧ byteOf x 1 ≠ 0#8 ∧ byteOf x 2 ≠ 0#8 ∧ byteOf x 3 ≠ 0#8 ∧
+     byteOf x 4 ≠ 0#8 ∧ byteOf x 5 ≠ 0#8 ∧ byteOf x 6 ≠ 0#8 ∧ byteOf x 7 ≠ 0#8) := by
+  unfold hasZero byteOf lo8 hi8
+  bv_decide
+
+theorem hasZero_eq_zero_iff (x : BitVec 64) : hasZero x = 0#64 ↔ ∀ k, k < 8 → byteOf x k ≠ 0#8 := by
+  rw [hasZero_zero_iff8]
+  constructor
+  · intro ⟨h0, h1, h2, h3, h4, h5, h6, h7⟩ k hk
+    rcases lt8_cases hk with rfl | rfl | rfl | rfl | rfl | rfl | rfl | rfl <;> assumption
+  · intro hall
+    exact ⟨hall 0 (by omega), hall 1 (by omega), hall 2 (by omega), hall 3 (by omega),
+      hall 4 (by omega), hall 5 (by omega), hall 6 (by omega), hall 7 (by omega)⟩
+
+theorem hz_bit0 (x : BitVec 64) : (hasZero x).getLsbD (8*0+7) = (byteOf x 0 == 0#8) := by
+  unfold hasZero byteOf lo8 hi8 at *
+  bv_decide
+
+theorem hz_bit1 (x : BitVec 64) (h0 : byteOf x 0 ≠ 0#8) :
+    (hasZero x).getLsbD (8*1+7) = (byteOf x 1 == 0#8) := by
+  unfold hasZero byteOf lo8 hi8 at *
+  bv_decide
+
+theorem hz_bit2 (x : BitVec 64) (h0 : byteOf x 0 ≠ 0#8) (h1 : byteOf x 1 ≠ 0#8) :
+    (hasZero x).getLsbD (8*2+7) = (byteOf x 2 == 0#8) := by
+  unfold hasZero byteOf lo8 hi8 at *
+  bv_decide
+
+theorem hz_bit3 (x : BitVec 64) (h0 : byteOf x 0 ≠ 0#8) (h1 : byteOf x 1 ≠ 0#8) (h2 : byteOf x 2 ≠ 0#8) :
+    (hasZero x).getLsbD (8*3+7) = (byteOf x 3 == 0#8) := by
+  unfold hasZero byteOf lo8 hi8 at *
+  bv_decide
+
+theorem hz_bit4 (x : BitVec 64) (h0 : byteOf x 0 ≠ 0#8) (h1 : byteOf x 1 ≠ 0#8) (h2 : byteOf x 2 ≠ 0#8)
+    (h3 : byteOf x 3 ≠ 0#8) : (hasZero x).getLsbD (8*4+7) = (byteOf x 4 == 0#8) := by
+  unfold hasZero byteOf lo8 hi8 at *
+  bv_decide
+
+theorem hz_bit5 (x : BitVec 64) (h0 : byteOf x 0 ≠ 0#8) (h1 : byteOf x 1 ≠ 0#8) (h2 : byteOf x 2 ≠ 0#8)
+    (h3 : byteOf x 3 ≠ 0#8) (h4 : byteOf x 4 ≠ 0#8) : (hasZero x).getLsbD (8*5+7) = (byteOf x 5 == 0#8) := by
+  unfold hasZero byteOf lo8 hi8 at *
+  bv_decide
+
+theorem hz_bit6 (x : BitVec 64) (h0 : byteOf x 0 ≠ 0#8) (h1 : byteOf x 1 ≠ 0#8) (h2 : byteOf x 2 ≠ 0#8)
+    (h3 : byteOf x 3 ≠ 0#8) (h4 : byteOf x 4 ≠ 0#8) (h5 : byteOf x 5 ≠ 0#8) :
+    (hasZero x).getLsbD (8*6+7) = (byteOf x 6 == 0#8) := by
+  unfold hasZero byteOf lo8 hi8 at *
+  bv_decide
+
+theorem hz_bit7 (x : BitVec 64) (h0 : byteOf x 0 ≠ 0#8) (h1 : byteOf x 1 ≠ 0#8) (h2 : byteOf x 2 ≠ 0#8)
+    (h3 : byteOf x 3 ≠ 0#8) (h4 : byteOf x 4 ≠ 0#8) (h5 : byteOf x 5 ≠ 0#8) (h6 : byteOf x 6 ≠ 0#8) :
+    (hasZero x).getLsbD (8*7+7) = (byteOf x 7 == 0#8) := by
+  unfold hasZero byteOf lo8 hi8 at *
+  bv_decide
+
+/-- if bytes `0..k-1` are non-zero, bit `8k+7` of the detector says exactly whether byte `k` is zero -/
+theorem hz_bit (x : BitVec 64) (k : Nat) (hk : k < 8) (hfirst : ∀ j, j < k → byteOf x j ≠ 0#8) :
+    (hasZero x).getLsbD (8*k+7) = (byteOf x k == 0#8) := by
+  rcases lt8_cases hk with rfl | rfl | rfl | rfl | rfl | rfl | rfl | rfl
+  · exact hz_bit0 x
+  · exact hz_bit1 x (hfirst 0 (by omega))
+  · exact hz_bit2 x (hfirst 0 (by omega)) (hfirst 1 (by omega))
+  · exact hz_bit3 x (hfirst 0 (by omega)) (hfirst 1 (by omega)) (hfirst 2 (by omega))
+  · exact hz_bit4 x (hfirst 0 (by omega)) (hfirst 1 (by omega)) (hfirst 2 (by omega)) (hfirst 3 (by omega))
+  · exact hz_bit5 x (hfirst 0 (by omega)) (hfirst 1 (by omega)) (hfirst 2 (by omega)) (hfirst 3 (by omega))
+      (hfirst 4 (by omega))
+  · exact hz_bit6 x (hfirst 0 (by omega)) (hfirst 1 (by omega)) (hfirst 2 (by omega)) (hfirst 3 (by omega))
+      (hfirst 4 (by omega)) (hfirst 5 (by omega))
+  · exact hz_bit7 x (hfirst 0 (by omega)) (hfirst 1 (by omega)) (hfirst 2 (by omega)) (hfirst 3 (by omega))
+      (hfirst 4 (by omega)) (hfirst 5 (by omega)) (hfirst 6 (by omega))
+
+/-- the detector only ever sets the top bit of a byte -/
+theorem hasZero_bit_pos (x : BitVec 64) (i : Nat) (hi : (hasZero x).getLsbD i = true) : i < 64 ∧ i % 8 = 7 := by
+  have h64 : i < 64 := BitVec.lt_of_getLsbD hi
+  unfold hasZero at hi
+  rw [BitVec.getLsbD_and, hi8_bit i h64] at hi
+  simp only [Bool.and_eq_true, decide_eq_true_eq] at hi
+  exact ⟨h64, hi.2⟩
+
+/-- no detector bit below the top bit of the first zero byte -/
+theorem hasZero_below (x : BitVec 64) (k : Nat) (hk : k < 8) (hfirst : ∀ j, j < k → byteOf x j ≠ 0#8) :
+    ∀ i, i < 8*k+7 → (hasZero x).getLsbD i = false := by
+  intro i hi
+  have _ := hk
+  cases hbit : (hasZero x).getLsbD i with
+  | false => rfl
+  | true =>
+    have ⟨_, h7⟩ := hasZero_bit_pos x i hbit
+    have hj : i / 8 < k := by omega
+    have hi' : i = 8 * (i / 8) + 7 := by omega
+    have hb := hz_bit x (i / 8) (by omega) (fun j hj' => hfirst j (by omega))
+    rw [← hi', hbit] at hb
+    have hne := hfirst (i / 8) hj
+    simp only [Bool.true_eq, beq_iff_eq] at hb
+    exact absurd hb hne
+
+/-! ### trailing zeros -/
+
+theorem tzFrom_eq (x : BitVec 64) (p : Nat) (hp : x.getLsbD p = true) : ∀ fuel i, i ≤ p → p < i + fuel →
+    (∀ j, i ≤ j → j < p → x.getLsbD j = false) → tzFrom x fuel i = p := by
+  intro fuel
+  induction fuel with
+  | zero => intro i h1 h2; omega
+  | succ fuel ih =>
+    intro i h1 h2 hlow
+    unfold tzFrom
+    by_cases hip : i = p
+    · subst hip; rw [if_pos hp]
+    · have hf := hlow i (Nat.le_refl _) (by omega)
+      rw [hf]
+      have hstep : ∀ (a b : Nat), (if false = true then a else b) = b := by intros; simp
+      rw [hstep]
+      exact ih (i+1) (by omega) (by omega) (fun j hj1 hj2 => hlow j (by omega) hj2)
+
+theorem tz_eq (x : BitVec 64) (p : Nat) (hp64 : p < 64) (hp : x.getLsbD p = true)
+    (hlow : ∀ j, j < p → x.getLsbD j = false) : tz x = p := by
+  unfold tz
+  exact tzFrom_eq x p hp 64 0 (Nat.zero_le _) (by omega) (fun j _ hj => hlow j hj)
+
+theorem tz_hasZero_eq (x : BitVec 64) (k : Nat) (hk : k < 8) (hz : byteOf x k = 0#8)
+    (hfirst : ∀ j, j < k → byteOf x j ≠ 0#8) : tz (hasZero x) = 8*k+7 := by
+  apply tz_eq _ _ (by omega)
+  · rw [hz_bit x k hk hfirst, hz]; rfl
+  · exact hasZero_below x k hk hfirst
+
+/-- the lowest set bit of the detector marks the first zero byte -/
+theorem tz_hasZero (x : BitVec 64) (k : Nat) (hk : k < 8) (hz : byteOf x k = 0#8)
+    (hfirst : ∀ j, j < k → byteOf x j ≠ 0#8) : tz (hasZero x) / 8 = k := by
+  rw [tz_hasZero_eq x k hk hz hfirst]; omega
+
+/-! ### bytes of a loaded chunk -/
+
+theorem byteOf_load64 (h : Bytes) (idx k : Nat) (hb : BytesOK h) (hk : k < 8) :
+    byteOf (load64 h idx) k = BitVec.ofNat 8 (h.at (idx + k)) := by
+  have b0 := hb idx
+  have b1 := hb (idx+1)
+  have b2 := hb (idx+2)
+  have b3 := hb (idx+3)
+  have b4 := hb (idx+4)
+  have b5 := hb (idx+5)
+  have b6 := hb (idx+6)
+  have b7 := hb (idx+7)
+  apply BitVec.eq_of_toNat_eq
+  unfold byteOf load64
+  simp only [BitVec.truncate_eq_setWidth, BitVec.toNat_setWidth, BitVec.toNat_ushiftRight, BitVec.toNat_ofNat,
+    Nat.shiftRight_eq_div_pow]
+  rcases lt8_cases hk with rfl | rfl | rfl | rfl | rfl | rfl | rfl | rfl <;>
+    (try simp only [Nat.add_zero, Nat.reduceMul, Nat.reducePow, Nat.mul_zero, Nat.pow_zero, Nat.div_one]) <;> omega
+
+theorem byteOf_xor_bc (c : BitVec 64) (b : BitVec 8) (k : Nat) (hk : k < 8) :
+    byteOf (c ^^^ (b.zeroExtend 64 * lo8)) k = byteOf c k ^^^ b := by
+  rcases lt8_cases hk with rfl | rfl | rfl | rfl | rfl | rfl | rfl | rfl <;>
+    (unfold byteOf lo8; bv_decide)
+
+theorem byteOf_xor_broadcast (c : BitVec 64) (n k : Nat) (hn : n < 256) (hk : k < 8) :
+    byteOf (c ^^^ broadcast n) k = byteOf c k ^^^ BitVec.ofNat 8 n := by
+  have hw : BitVec.ofNat 64 n = (BitVec.ofNat 8 n).zeroExtend 64 := by
+    apply BitVec.eq_of_toNat_eq
+    simp only [BitVec.truncate_eq_setWidth, BitVec.toNat_setWidth, BitVec.toNat_ofNat]
+    omega
+  unfold broadcast
+  rw [hw]
+  exact byteOf_xor_bc c _ k hk
+
+theorem ofNat8_xor_eq_zero (a n : Nat) (ha : a < 256) (hn : n < 256) :
+    BitVec.ofNat 8 a ^^^ BitVec.ofNat 8 n = 0#8 ↔ a = n := by
+  rw [BitVec.xor_eq_zero_iff]
+  constructor
+  · intro he
+    have := congrArg BitVec.toNat he
+    simp only [BitVec.toNat_ofNat] at this
+    omega
+  · intro he; rw [he]
+
+theorem chunk_byte_zero (h : Bytes) (idx n k : Nat) (hb : BytesOK h) (hn : n < 256) (hk : k < 8) :
+    byteOf (load64 h idx ^^^ broadcast n) k = 0#8 ↔ h.at (idx + k) = n := by
+  rw [byteOf_xor_broadcast _ _ _ hn hk, byteOf_load64 h idx k hb hk]
+  exact ofNat8_xor_eq_zero _ _ (hb _) hn
+
+/-! ### the combined detector -/
+
+theorem foldl_or_bit (f : Nat → BitVec 64) (l : List Nat) (acc : BitVec 64) (i : Nat) :
+    (l.foldl (fun a n => a ||| f n) acc).getLsbD i = (acc.getLsbD i || l.any (fun n => (f n).getLsbD i)) := by
+  induction l generalizing acc with
+  | nil => simp
+  | cons a l ih => simp [List.foldl, ih, BitVec.getLsbD_or, Bool.or_assoc]
+
+theorem detect_bit (needles : List Nat) (c : BitVec 64) (i : Nat) :
+    (detect needles c).getLsbD i = needles.any (fun n => (hasZero (c ^^^ broadcast n)).getLsbD i) := by
+  unfold detect
+  rw [foldl_or_bit (fun n => hasZero (c ^^^ broadcast n))]
+  simp
+
+theorem exists_first (m : Nat → Bool) : ∀ n, (∃ k, k < n ∧ m k = true) →
+    ∃ k, k < n ∧ m k = true ∧ ∀ j, j < k → m j = false := by
+  intro n
+  induction n with
+  | zero => intro ⟨k, hk, _⟩; omega
+  | succ n ih =>
+    intro ⟨k, hk, hmk⟩
+    by_cases hex : ∃ k, k < n ∧ m k = true
+    · obtain ⟨k', h1, h2, h3⟩ := ih hex
+      exact ⟨k', by omega, h2, h3⟩
+    · have hkn : k = n := by
+        by_cases hlt : k < n
+        · exact absurd ⟨k, hlt, hmk⟩ hex
+        · omega
+      subst hkn
+      refine ⟨k, by omega, hmk, fun j hj => ?_⟩
+      cases hmj : m j with
+      | false => rfl
+      | true => exact absurd ⟨j, hj, hmj⟩ hex
+
+section Chunk
+variable (h : Bytes) (needles : List Nat) (hb : BytesOK h) (hn : ∀ n ∈ needles, n < 256)
+include hb hn
+
+theorem chunk_nonzero_before (idx k : Nat) (hk : k < 8)
+    (hlt : ∀ j, j < k → needles.contains (h.at (idx + j)) = false) :
+    ∀ n ∈ needles, ∀ j, j < k → byteOf (load64 h idx ^^^ broadcast n) j ≠ 0#8 := by
+  intro n hmem j hj hz
+  have he := (chunk_byte_zero h idx n j hb (hn n hmem) (by omega)).mp hz
+  have := hlt j hj
+  rw [he] at this
+  simp only [List.contains_eq_mem, decide_eq_false_iff_not] at this
+  exact this hmem
+
+theorem detect_first (idx k : Nat) (hk : k < 8) (hpk : needles.contains (h.at (idx + k)) = true)
+    (hlt : ∀ j, j < k → needles.contains (h.at (idx + j)) = false) :
+    detect needles (load64 h idx) ≠ 0#64 ∧ tz (detect needles (load64 h idx)) = 8*k+7 := by
+  have hnz := chunk_nonzero_before h needles hb hn idx k hk hlt
+  have hmem : h.at (idx + k) ∈ needles := by simpa using hpk
+  have hbit : (detect needles (load64 h idx)).getLsbD (8*k+7) = true := by
+    rw [detect_bit, List.any_eq_true]
+    refine ⟨h.at (idx + k), hmem, ?_⟩
+    rw [hz_bit _ k hk (hnz _ hmem), (chunk_byte_zero h idx _ k hb (hn _ hmem) hk).mpr rfl]
+    rfl
+  constructor
+  · intro hzero
+    rw [hzero] at hbit
+    simp at hbit
+  · apply tz_eq _ _ (by omega) hbit
+    intro i hi
+    rw [detect_bit, List.any_eq_false]
+    intro n hmemn
+    rw [hasZero_below _ k hk (hnz n hmemn) i hi]
+    simp
+
+theorem detect_zero (idx : Nat) (hall : ∀ j, j < 8 → needles.contains (h.at (idx + j)) = false) :
+    detect needles (load64 h idx) = 0#64 := by
+  apply BitVec.eq_of_getLsbD_eq
+  intro i _
+  rw [detect_bit]
+  have hnz := chunk_nonzero_before h needles hb hn idx 8
+  have : ∀ n ∈ needles, hasZero (load64 h idx ^^^ broadcast n) = 0#64 := by
+    intro n hmem
+    rw [hasZero_eq_zero_iff]
+    intro k hk
+    have he := chunk_byte_zero h idx n k hb (hn n hmem) hk
+    intro hz
+    have := hall k hk
+    rw [he.mp hz] at this
+    simp only [List.contains_eq_mem, decide_eq_false_iff_not] at this
+    exact this hmem
+  rw [BitVec.getLsbD_zero, List.any_eq_false]
+  intro n hmem
+  rw [this n hmem]
+  simp
+
+theorem chunkLoop_eq : ∀ fuel idx, h.size < fuel + idx →
+    chunkLoop h needles fuel idx = naiveFrom h (fun b => needles.contains b) (h.size + 1) idx := by
+  intro fuel
+  induction fuel with
+  | zero =>
+    intro idx hf
+    rw [naiveFrom_eq_neg_one _ _ _ _ (by omega) (fun j h1 h2 => by omega)]
+    rfl
+  | succ fuel ih =>
+    intro idx hf
+    unfold chunkLoop
+    by_cases hc : idx + 8 ≤ h.size
+    · rw [if_pos hc]
+      by_cases hex : ∃ k, k < 8 ∧ needles.contains (h.at (idx + k)) = true
+      · obtain ⟨k, hk, hpk, hlt⟩ := exists_first (fun k => needles.contains (h.at (idx + k))) 8 hex
+        obtain ⟨hne, htz⟩ := detect_first h needles hb hn idx k hk hpk hlt
+        dsimp only
+        rw [if_pos hne, htz]
+        rw [naiveFrom_eq_of_first h _ (h.size + 1) idx (idx + k) (by omega) (by omega) (by omega) hpk]
+        · simp; omega
+        · intro j hj1 hj2
+          have := hlt (j - idx) (by omega)
+          rw [show idx + (j - idx) = j by omega] at this
+          exact this
+      · have hall : ∀ j, j < 8 → needles.contains (h.at (idx + j)) = false := by
+          intro j hj
+          cases hm : needles.contains (h.at (idx + j)) with
+          | false => rfl
+          | true => exact absurd ⟨j, hj, hm⟩ hex
+        have hz := detect_zero h needles hb hn idx hall
+        dsimp only
+        rw [hz, naiveFrom_skip h _ idx 8]
+        · simpa using ih (idx + 8) (by omega)
+        · intro j hj1 hj2
+          have := hall (j - idx) (by omega)
+          rw [show idx + (j - idx) = j by omega] at this
+          exact this
+    · rw [if_neg hc]
+
+end Chunk
+
+theorem memchrN_eq_naive (h : Bytes) (needles : List Nat) (hb : BytesOK h) (hn : ∀ n ∈ needles, n < 256)
+    (hlen : 1 ≤ needles.length ∧ needles.length ≤ 3) :
+    memchrNGeneric h needles = naiveIndex h (fun b => needles.contains b) := by
+  have _ := hlen  -- the equality holds for any number of needles
+  unfold memchrNGeneric
+  by_cases h0 : h.size = 0
+  · rw [if_pos h0]
+    unfold naiveIndex
+    rw [naiveFrom_eq_neg_one _ _ _ _ (by omega) (fun j h1 h2 => by omega)]
+  · rw [if_neg h0]
+    by_cases h8 : h.size < 8
+    · rw [if_pos h8]
+    · rw [if_neg h8]
+      exact chunkLoop_eq h needles hb hn (h.size + 1) 0 (by omega)
+
+/-! ### isASCII -/
+
+theorem and_hi8_zero_iff8 (c : BitVec 64) : c &&& hi8 = 0#64 ↔
+    (byteOf c 0 < 128#8 ∧ byteOf c 1 < 128#8 ∧ byteOf c 2 < 128#8 ∧ byteOf c 3 < 128#8 ∧
+     byteOf c 4 < 128#8 ∧ byteOf c 5 < 128#8 ∧ byteOf c 6 < 128#8 ∧ byteOf c 7 < 128#8) := by
+  unfold byteOf hi8
+  bv_decide
+
+theorem and_hi8_zero_iff (c : BitVec 64) : c &&& hi8 = 0#64 ↔ ∀ k, k < 8 → byteOf c k < 128#8 := by
+  rw [and_hi8_zero_iff8]
+  constructor
+  · intro ⟨h0, h1, h2, h3, h4, h5, h6, h7⟩ k hk
+    rcases lt8_cases hk with rfl | rfl | rfl | rfl | rfl | rfl | rfl | rfl <;> assumption
+  · intro hall
+    exact ⟨hall 0 (by omega), hall 1 (by omega), hall 2 (by omega), hall 3 (by omega),
+      hall 4 (by omega), hall 5 (by omega), hall 6 (by omega), hall 7 (by omega)⟩
+
+theorem chunk_ascii_iff (h : Bytes) (idx : Nat) (hb : BytesOK h) :
+    load64 h idx &&& hi8 = 0#64 ↔ ∀ k, k < 8 → h.at (idx + k) < 128 := by
+  rw [and_hi8_zero_iff]
+  have key : ∀ k, k < 8 → (byteOf (load64 h idx) k < 128#8 ↔ h.at (idx + k) < 128) := by
+    intro k hk
+    rw [byteOf_load64 h idx k hb hk, BitVec.lt_def]
+    have := hb (idx + k)
+    simp only [BitVec.toNat_ofNat]
+    omega
+  constructor
+  · intro hall k hk; exact (key k hk).mp (hall k hk)
+  · intro hall k hk; exact (key k hk).mpr (hall k hk)
+
+theorem naiveFrom_neg_one_iff (h : Bytes) (p : Nat → Bool) (fuel i : Nat) (hf : h.size < fuel + i) :
+    naiveFrom h p fuel i = -1 ↔ ∀ j, i ≤ j → j < h.size → p (h.at j) = false := by
+  constructor
+  · intro he
+    rcases naiveFrom_spec h p fuel i hf with ⟨_, h2⟩ | ⟨k, h1, _⟩
+    · exact h2
+    · rw [h1] at he; omega
+  · exact naiveFrom_eq_neg_one h p fuel i hf
+
+theorem asciiLoop_eq (h : Bytes) (hb : BytesOK h) : ∀ fuel idx, h.size < fuel + idx →
+    asciiLoop h fuel idx = decide (naiveFrom h (fun b => b ≥ 128) (h.size + 1) idx = -1) := by
+  intro fuel
+  induction fuel with
+  | zero =>
+    intro idx hf
+    rw [naiveFrom_eq_neg_one _ _ _ _ (by omega) (fun j h1 h2 => by omega)]
+    rfl
+  | succ fuel ih =>
+    intro idx hf
+    unfold asciiLoop
+    by_cases hc : idx + 8 ≤ h.size
+    · rw [if_pos hc]
+      by_cases hall : ∀ k, k < 8 → h.at (idx + k) < 128
+      · have hz := (chunk_ascii_iff h idx hb).mpr hall
+        rw [hz, naiveFrom_skip h _ idx 8]
+        · simpa using ih (idx + 8) (by omega)
+        · intro j hj1 hj2
+          have := hall (j - idx) (by omega)
+          rw [show idx + (j - idx) = j by omega] at this
+          simp only [ge_iff_le, decide_eq_false_iff_not]
+          omega
+      · have hnz : load64 h idx &&& hi8 ≠ 0#64 := fun hz => hall ((chunk_ascii_iff h idx hb).mp hz)
+        rw [if_pos hnz]
+        symm
+        rw [decide_eq_false_iff_not, naiveFrom_neg_one_iff _ _ _ _ (by omega)]
+        intro hnone
+        apply hall
+        intro k hk
+        have := hnone (idx + k) (by omega) (by omega)
+        simp only [ge_iff_le, decide_eq_false_iff_not] at this
+        omega
+    · rw [if_neg hc]
+
+theorem isASCII_eq_naive (h : Bytes) (hb : BytesOK h) :
+    isASCIIGeneric h = decide (naiveIndex h (fun b => b ≥ 128) = -1) := by
+  unfold isASCIIGeneric
+  by_cases h0 : h.size = 0
+  · rw [if_pos h0]
+    unfold naiveIndex
+    rw [naiveFrom_eq_neg_one _ _ _ _ (by omega) (fun j h1 h2 => by omega)]
+    rfl
+  · rw [if_neg h0]
+    by_cases h8 : h.size < 8
+    · rw [if_pos h8]
+    · rw [if_neg h8]
+      exact asciiLoop_eq h hb (h.size + 1) 0 (by omega)
 
 end Cx.Swar
